@@ -58,6 +58,7 @@ pub fn step(wide: bool) -> BoxedStrategy<Step> {
             1 => Just(Step::Last),
             1 => Just(Step::Fold),
             1 => Just(Step::RevCollect),
+            1 => Just(Step::Search),
             1 => Just(Step::RFold),
             1 => Just(Step::RevLast),
             1 => (0u8..4).prop_map(Step::Skip),
@@ -160,6 +161,7 @@ pub fn op(w: Weights, maxn: u32) -> BoxedStrategy<Op> {
         (w.ctor / 2 + 1, Just(Op::DropBuf).boxed()),
         (w.cmp, (any::<u16>(), any::<u16>(), proptest::option::of(idx())).prop_map(|(s, l, d)| Op::Cmp(s as u32, l as u32, d)).boxed()),
         (w.cmp, proptest::option::of(idx()).prop_map(Op::EqSlice).boxed()),
+        (w.cmp, (0u32..9, any::<u16>(), any::<u16>(), proptest::option::of(idx())).prop_map(|(m, s, l, d)| Op::CmpCap(m, s as u32, l as u32, d)).boxed()),
     ];
     if w.iter > 0 {
         let kinds = prop_oneof![
